@@ -36,6 +36,9 @@ var c18Outputs = map[string]string{
 type fieldVal struct {
 	listed bool
 	skip   bool // listed only with an unconditional validation.Skip
+	// condSkip: listed only with a Skip that applies under some condition
+	// (Skip.When(c), or a rule variable that is Skip on some path)
+	condSkip string
 	pos    token.Pos
 	rules  []ast.Expr
 	info   *types.Info
@@ -116,6 +119,7 @@ func (a *c18) valOf(n *types.Named) *typeVal {
 			tv.decl = fd
 		}
 		info := fd.Pkg.TypesInfo
+		ld := core.NewLocalDefs(info, fd.Decl.Body)
 		for _, sv := range core.StructValidations(info, fd.Decl.Body) {
 			tv.structVal = true
 			if sv.Opaque {
@@ -124,9 +128,16 @@ func (a *c18) valOf(n *types.Named) *typeVal {
 			for _, fr := range sv.Fields {
 				fv := tv.fields[fr.Field]
 				unconditionalSkip := false
+				condSkip := ""
+				if fr.Cond != nil {
+					condSkip = "unless " + types.ExprString(fr.Cond) + " (the field is listed conditionally)"
+				}
 				for _, r := range fr.Rules {
-					if core.IsValidationVar(info, r, "Skip") {
+					switch un, cond := skipKind(info, ld, r, 0); {
+					case un:
 						unconditionalSkip = true
+					case cond != "":
+						condSkip = cond
 					}
 				}
 				if fv == nil {
@@ -134,8 +145,10 @@ func (a *c18) valOf(n *types.Named) *typeVal {
 					tv.fields[fr.Field] = fv
 					fv.listed = true
 					fv.skip = unconditionalSkip
-				} else if !unconditionalSkip {
+					fv.condSkip = condSkip
+				} else if !unconditionalSkip && condSkip == "" {
 					fv.skip = false // listed again without Skip: the recursive step runs
+					fv.condSkip = ""
 				}
 				fv.rules = append(fv.rules, fr.Rules...)
 			}
@@ -160,6 +173,55 @@ func (a *c18) valOf(n *types.Named) *typeVal {
 	visit(pm, 0)
 	visit(vm, 0)
 	return tv
+}
+
+// skipKind: is this rule of a field's rule list validation.Skip — always, or
+// under a condition (Skip.When(c); a rule variable that holds Skip on some
+// path)? A Skip inside Each(...) or When(...) only ends that rule's own list.
+func skipKind(info *types.Info, ld *core.LocalDefs, r ast.Expr, depth int) (always bool, cond string) {
+	r = ast.Unparen(r)
+	if core.IsValidationVar(info, r, "Skip") {
+		return true, ""
+	}
+	if depth > 3 {
+		return false, ""
+	}
+	switch x := r.(type) {
+	case *ast.CallExpr:
+		if se, ok := x.Fun.(*ast.SelectorExpr); ok && se.Sel.Name == "When" && len(x.Args) == 1 {
+			if un, cd := skipKind(info, ld, se.X, depth+1); un || cd != "" {
+				return false, "when " + types.ExprString(x.Args[0])
+			}
+		}
+	case *ast.Ident:
+		v := core.VarOf(info, x)
+		if v == nil || ld == nil {
+			return false, ""
+		}
+		defs := ld.All(v)
+		n, all := 0, len(defs) > 0
+		for _, d := range defs {
+			if d.RHS == nil {
+				all = false
+				continue
+			}
+			if un, cd := skipKind(info, ld, d.RHS, depth+1); un || cd != "" {
+				n++
+				if !un {
+					all = false
+				}
+			} else {
+				all = false
+			}
+		}
+		if n > 0 && all {
+			return true, ""
+		}
+		if n > 0 {
+			return false, "on some paths (the rule variable " + v.Name() + " is set to Skip)"
+		}
+	}
+	return false, ""
 }
 
 func isReference(n *types.Named) bool {
@@ -334,6 +396,9 @@ func C18(c *core.Ctx) {
 			case fv.skip:
 				c.Ob("C18-R1", key, fv.pos, false, fmt.Sprintf("field is listed with an unconditional validation.Skip, which returns before the recursive validation (path %s)", path))
 				continue
+			case fv.condSkip != "":
+				c.Ob("C18-R1", key, fv.pos, false, fmt.Sprintf("field is listed with a validation.Skip that applies %s: whenever it does, the library returns before the remaining rules and before the value's own validation, so an undefined %s there passes (path %s)", fv.condSkip, referenceTypes[core.TypeName(leaf(a, targets[0]))], path))
+				continue
 			}
 			// how is the target held, and can the library call its validator that way?
 			okHeld := true
@@ -371,6 +436,7 @@ func C18(c *core.Ctx) {
 
 	c18Consult(c)
 	c18Tags(c, a)
+	c18TagRule(c)
 	c18ComboRegime(c)
 	c18Exact(c)
 }
@@ -710,4 +776,213 @@ func reachesThroughVars(p *core.Program, fn *types.Func, pred func(*types.Func) 
 	}
 	scan(fd.Decl.Body, info)
 	return found
+}
+
+// c18TagRule — C18-R6: the rule behind tax.TagsIn accepts a list only after
+// testing every entry for membership of the keys it was given. Its Validate
+// may return nil (a) after the membership loop, or (b) because the value is not
+// a tag list at all (a failed type assertion); a nil returned for any other
+// reason — the rule's own key list being empty, say — lets every tag through.
+func c18TagRule(c *core.Ctx) {
+	p := c.P
+	c.Rule("C18-R6", "the TagsIn rule accepts only after testing every tag against its keys", 3)
+	ctor := p.Func("tax", "", "TagsIn")
+	if ctor == nil {
+		c.Ob("C18-R6", "UNRESOLVED:tax.TagsIn", token.NoPos, false, "function not found")
+		return
+	}
+	// the rule type: what TagsIn returns
+	var ruleType *types.Named
+	ast.Inspect(ctor.Decl.Body, func(n ast.Node) bool {
+		if r, ok := n.(*ast.ReturnStmt); ok && len(r.Results) == 1 {
+			if nn, _ := core.StructOf(ctor.Pkg.TypesInfo.TypeOf(r.Results[0])); nn != nil {
+				ruleType = nn
+			}
+		}
+		return true
+	})
+	if ruleType == nil {
+		c.Ob("C18-R6", "UNRESOLVED:tag-rule-type", ctor.Decl.Pos(), false, "UNDECIDED: tax.TagsIn does not return a struct rule")
+		return
+	}
+	fd := p.Func("tax", ruleType.Obj().Name(), "Validate")
+	if fd == nil {
+		c.Ob("C18-R6", "UNRESOLVED:tag-rule-validate", ruleType.Obj().Pos(), false, "NOT FOUND: the tag rule has no Validate method")
+		return
+	}
+	info := fd.Pkg.TypesInfo
+	recv := recvVar(fd)
+	ff := core.NewFuncFlow(fd)
+	fromRecv := func(e ast.Expr) bool { return core.RootVar(info, e) == recv }
+	ld := core.NewLocalDefs(info, fd.Decl.Body)
+	// the membership loop: a loop (range or index form) whose body tests `!k.In(recv.keys...)`
+	// for its element k and returns an error
+	var loop ast.Stmt
+	var test *ast.IfStmt
+	elemOfLoop := func(lp ast.Stmt, k *types.Var) bool {
+		if k == nil {
+			return false
+		}
+		if rs, ok := lp.(*ast.RangeStmt); ok {
+			if rs.Value != nil && core.VarOf(info, rs.Value) == k {
+				switch ast.Unparen(rs.X).(type) {
+				case *ast.Ident, *ast.SelectorExpr:
+					return true
+				}
+				return false
+			}
+		}
+		// k := list[i] (in the loop body or the if's init), i the loop's index
+		for _, d := range ld.All(k) {
+			if d.RHS == nil || d.Pos < lp.Pos() || d.Pos > lp.End() {
+				return false
+			}
+			ix, ok := ast.Unparen(d.RHS).(*ast.IndexExpr)
+			if !ok {
+				return false
+			}
+			switch ast.Unparen(ix.X).(type) {
+			case *ast.Ident, *ast.SelectorExpr:
+			default:
+				return false
+			}
+			if _, isIdent := ast.Unparen(ix.Index).(*ast.Ident); !isIdent {
+				return false
+			}
+		}
+		return len(ld.All(k)) > 0
+	}
+	var visit func(n ast.Node) bool
+	visit = func(n ast.Node) bool {
+		var body *ast.BlockStmt
+		switch x := n.(type) {
+		case *ast.RangeStmt:
+			body = x.Body
+		case *ast.ForStmt:
+			body = x.Body
+		default:
+			return true
+		}
+		if loop != nil {
+			return false
+		}
+		ast.Inspect(body, func(m ast.Node) bool {
+			is, ok := m.(*ast.IfStmt)
+			if !ok || test != nil {
+				return true
+			}
+			un, ok := ast.Unparen(is.Cond).(*ast.UnaryExpr)
+			if !ok || un.Op != token.NOT {
+				return true
+			}
+			call, ok := ast.Unparen(un.X).(*ast.CallExpr)
+			if !ok {
+				return true
+			}
+			fn := core.Callee(info, call)
+			if fn == nil || fn.Name() != "In" || !elemOfLoop(n.(ast.Stmt), core.VarOf(info, core.RecvExpr(call))) {
+				return true
+			}
+			if len(call.Args) != 1 || !call.Ellipsis.IsValid() || !fromRecv(call.Args[0]) {
+				return true
+			}
+			if _, isSel := ast.Unparen(call.Args[0]).(*ast.SelectorExpr); !isSel {
+				return true // a slice of the keys is not the keys
+			}
+			if !endsWithReturn(is.Body.List) {
+				return true
+			}
+			ret := is.Body.List[len(is.Body.List)-1].(*ast.ReturnStmt)
+			if len(ret.Results) != 1 || core.IsNil(info, ret.Results[0]) {
+				return true
+			}
+			test = is
+			return false
+		})
+		if test != nil {
+			loop = n.(ast.Stmt)
+		}
+		return true
+	}
+	ast.Inspect(fd.Decl.Body, visit)
+	if loop == nil {
+		c.Ob("C18-R6", fd.Name()+"#membership-loop", fd.Decl.Pos(), false, "NOT FOUND: no loop over the tag list that rejects an entry which is not In(the rule's keys...)")
+		return
+	}
+	why := everyIteration(p, info, fd.Decl.Body, test, func(ast.Expr, bool) bool { return false })
+	c.Ob("C18-R6", fd.Name()+"#every-entry", test.Pos(), why == "", "the membership test is not applied to every entry of the list: "+why)
+	// what the loop walks is the value itself (or its List)
+	n := 0
+	for _, r := range ff.Flow.Returns() {
+		if !ff.Flow.Reachable(r) || len(r.Results) != 1 || !core.IsNil(info, r.Results[0]) {
+			continue
+		}
+		n++
+		key := fmt.Sprintf("%s#accepts%d", fd.Name(), n)
+		if ff.Flow.EveryPathPasses(r, func(nd ast.Node) bool { return nd.Pos() >= loop.Pos() && nd.End() <= loop.End() }) {
+			c.Ob("C18-R6", key, r.Pos(), true, "")
+			continue
+		}
+		// not after the loop: the reason may only be the dynamic type of the value (a failed
+		// assertion, a type-switch clause), never the rule's own keys or the list's contents
+		bad := ""
+		nconds := 0
+		mentionsBad := func(e ast.Expr) string {
+			why := ""
+			ast.Inspect(e, func(m ast.Node) bool {
+				switch x := m.(type) {
+				case *ast.Ident:
+					if v := core.VarOf(info, x); v != nil && v == recv {
+						why = "depends on the rule itself"
+					}
+				case *ast.CallExpr:
+					if id, ok := x.Fun.(*ast.Ident); ok && id.Name == "len" {
+						why = "depends on a length"
+					}
+				case *ast.IndexExpr:
+					why = "depends on an element"
+				}
+				return why == ""
+			})
+			return why
+		}
+		for leaf, val := range ff.Flow.CondsAt(r) {
+			nconds++
+			if why := mentionsBad(leaf); why != "" {
+				bad = fmt.Sprintf("%s is %v, which %s", types.ExprString(leaf), val, why)
+				continue
+			}
+			// a boolean local: every definition comes from a type assertion, a type-switch clause or a constant
+			if id, ok := ast.Unparen(leaf).(*ast.Ident); ok {
+				if v := core.VarOf(info, id); v != nil {
+					for _, d := range ld.All(v) {
+						if d.RHS == nil {
+							continue
+						}
+						if _, isTA := ast.Unparen(d.RHS).(*ast.TypeAssertExpr); isTA {
+							continue
+						}
+						if tv, isConst := info.Types[d.RHS]; isConst && tv.Value != nil {
+							continue
+						}
+						if call, isCall := ast.Unparen(d.RHS).(*ast.CallExpr); isCall && mentionsBad(call) == "" {
+							continue // a helper over the value alone (decided in the other view when inlined)
+						}
+						bad = fmt.Sprintf("%s is %v, set from %s", types.ExprString(leaf), val, types.ExprString(d.RHS))
+					}
+				}
+			}
+		}
+		inTypeSwitch := false
+		ast.Inspect(fd.Decl.Body, func(m ast.Node) bool {
+			if ts, ok := m.(*ast.TypeSwitchStmt); ok && ts.Pos() <= r.Pos() && r.End() <= ts.End() {
+				inTypeSwitch = true
+			}
+			return true
+		})
+		if nconds == 0 && !inTypeSwitch {
+			bad = "no condition at all"
+		}
+		c.Ob("C18-R6", key, r.Pos(), bad == "", fmt.Sprintf("the tag rule accepts the value here without having tested its entries (%s): with that, any tag — defined by the regime and addons or not — passes validation", bad))
+	}
 }
